@@ -17,17 +17,35 @@ DEFAULT_RULE = ("cases = transitions (state, action, draw placement) of exhausti
                 "(action type, outcome class) pairs hit plus number of distinct reachable states explored")
 
 DYN = ["dyn"]
+_T = "Lean 4 theorems over an executable model + differential correspondence with the implementation"
+_N = ("Theorems quantify over all scenarios/states/actions/draws of the model; the model is tied to the Python code by the DYN "
+      "correspondence suite (exhaustive BFS of small random scenarios x every action x draw on both sides of the probability, "
+      "8-mode lock-step walks) run by this check, which is finite and seeded. Values restricted to multiples of 1/64.")
+NOT_APPLICABLE = {}
 PROPS = {
-    "C01": dict(module="C01", suites=DYN),
-    "C02": dict(module="C02", suites=DYN),
-    "C03": dict(module="C03", suites=DYN),
-    "C04": dict(module="C04", suites=DYN),
-    "C05": dict(module="C05", suites=DYN),
-    "C06": dict(module="C06", suites=DYN),
-    "C07": dict(module="C07", suites=DYN),
-    "C08": dict(module="C08", suites=DYN),
-    "C12": dict(module="C12", suites=DYN),
-    "C13": dict(module="C13", suites=DYN),
+    "C01": dict(module="C01", suites=DYN, technique=_T, note=_N, design_ref="DESIGN.md §8 C01",
+                text="C01_only_if / C01_scans / C01_if proved for every network, state with distinct addresses, action and draw (and lifted to reachable states): compromised/access change only at the target of an exploit/escalation whose host-level preconditions hold; gates + preconditions + surviving draw imply success with access = max(old, granted)."),
+    "C02": dict(module="C02", suites=DYN, technique=_T, note=_N, design_ref="DESIGN.md §8 C02",
+                text="C02_unreachable, C02_fail_changes_nothing, C02_remote_pivot, C02_exploit_firewalls, C02_on_host proved for all inputs of the model (after the fix of the internet-rule defect the model's traffic check is the property's right-hand side)."),
+    "C03": dict(module="C03", suites=DYN, technique=_T, note=_N, design_ref="DESIGN.md §8 C03",
+                text="Invariant Inv3 (reachable iff public or connected from a compromised subnet; compromised => discovered => reachable) proved for the initial state, preserved by every step, hence for every history of any length (induction over Reach); discovery characterised exactly (only by a successful subnet scan from a compromised host, which discovers all connected subnets)."),
+    "C04": dict(module="C04", suites=DYN, technique=_T, note=_N, design_ref="DESIGN.md §8 C04",
+                text="Per-row monotonicity and configuration immutability proved per step and over histories (C04_history); reset restores exactly the initial state from any reachable state, and at environment level after any interleaving of step/generative_step/reset (C04_env_reset), counter zeroed."),
+    "C05": dict(module="C05", suites=DYN, technique=_T, note=_N, design_ref="DESIGN.md §8 C05",
+                text="reward = value - cost by definition of genStep; value characterised exactly (host value iff access goes <ROOT -> ROOT in this step; sum of discovery values of rows newly discovered; 0 for failures, scans, no-op); paid-once theorems over arbitrary histories."),
+    "C06": dict(module="C06", suites=DYN, technique=_T, note=_N, design_ref="DESIGN.md §8 C06",
+                text="done = goal(next state) and goal = ROOT on every sensitive host; step counter = number of step() calls since last reset for any interleaving of ops; step-limit flag iff limit reached; generative steps not counted."),
+    "C07": dict(module="C07", suites=DYN, technique=_T, design_ref="DESIGN.md §8 C07",
+                note=_N + " The distributional reading (P[u <= p] = p for NumPy's uniform generator) is outside the model.",
+                text="Gate failures independent of the draw (0 draws), re-exploit consumes no draw, otherwise exactly one; chance failure changes nothing / gains nothing / is exactly an undefined error; prob 1 never fails for u<1, prob 0 never succeeds for u>0; flags exclusive."),
+    "C08": dict(module="C08", suites=DYN, technique=_T, note=_N, design_ref="DESIGN.md §8 C08",
+                text="Truthfulness (every entry of an observed row is 0 or the true entry, for any mask), minimality (rows other than the target / scanned rows are empty; failures and no-ops reveal nothing), completeness (entitlement table, groups copied in full), full observability, auxiliary row, initial observation - all proved for the model's observe."),
+    "C12": dict(module="C12", suites=DYN, technique=_T, design_ref="DESIGN.md §8 C12",
+                note=_N + " The model's transition function is mode-free, so the theorems are short; the substance is the correspondence of all 8 implementation modes to it plus direct cross-mode comparison on the implementation.",
+                text="genStep outputs other than the observation do not depend on fullyObs; trajectories of state and counter coincide for any op history (C12_history); equal decoded actions give equal steps; checked on the implementation in lock-step over all 8 mode combinations."),
+    "C13": dict(module="C13", suites=DYN, technique=_T, design_ref="DESIGN.md §8 C13",
+                note=_N + " Partial by nature: storage aliasing is a NumPy runtime fact no Lean model exhibits; it is decided on the implementation (bytes of argument/current state/last obs/steps before vs after, np.shares_memory) for every explored transition.",
+                text="step = generative step from the current state + install (definitional shape, rfl); generative steps leave the environment untouched and are transparent in any history; runtime purity checked directly on the implementation."),
 }
 
 
